@@ -70,16 +70,29 @@ def build(ch, pos, depth, leaves):
   return ()
 
 # ---- independent reference semantics (never calls the library) ------------------------------------------------------
-_CONT = (dict, list, tuple)
+# Container classification asks CrossHair proxies (e.g. the ShellMutableMap that a traced `dict(x)` returns) for the python
+# type they model: with tracing off `type()` / `isinstance()` are not patched and would see the proxy class.
+def _pt(x):
+  f = getattr(type(x), '__ch_pytype__', None)
+  if f is None: return type(x)
+  try: return f(x)
+  except Exception: return type(x)
+def is_dict(x): return issubclass(_pt(x), dict)
+def is_list(x): return issubclass(_pt(x), list)
+def is_tuple(x): return issubclass(_pt(x), tuple)
+def is_seq(x): return issubclass(_pt(x), (list, tuple))
+def is_cont(x): return issubclass(_pt(x), (dict, list, tuple))
+def kind(x):
+  return 'dict' if is_dict(x) else 'list' if is_list(x) else 'tuple' if is_tuple(x) else None
 def is_node(x):
   """interior node = non-empty dict/list/tuple; everything else (ints, empty containers, arrays) is a leaf."""
-  return isinstance(x, _CONT) and len(x) > 0
+  return is_cont(x) and len(x) > 0
 
 def ref_nodes(t, prefix=()):
   out = [(prefix, t)]
-  if isinstance(t, dict):
+  if is_dict(t):
     for k, v in t.items(): out += ref_nodes(v, prefix + (k,))
-  elif isinstance(t, (list, tuple)):
+  elif is_seq(t):
     for i, v in enumerate(t): out += ref_nodes(v, prefix + (Index(i),))
   return out
 
@@ -93,9 +106,9 @@ def ref_get(t, p):
   return t
 
 def ref_copy(t):
-  if isinstance(t, dict): return {k: ref_copy(v) for k, v in t.items()}
-  if isinstance(t, list): return [ref_copy(v) for v in t]
-  if isinstance(t, tuple): return tuple(ref_copy(v) for v in t)
+  if is_dict(t): return {k: ref_copy(v) for k, v in t.items()}
+  if is_list(t): return [ref_copy(v) for v in t]
+  if is_tuple(t): return tuple(ref_copy(v) for v in t)
   if isinstance(t, _np.ndarray): return _np.array(t.tolist())
   return t
 
@@ -109,14 +122,14 @@ def ref_set(t, p, v):
       if k != 0: raise KeyError('ref: non-zero index into a fresh sequence')
       return [ref_set(_MISSING, rest, v)]
     return {k: ref_set(_MISSING, rest, v)}
-  if isinstance(t, dict):
+  if is_dict(t):
     r = dict(t); r[k] = ref_set(t.get(k, _MISSING), rest, v)
     return r
-  if isinstance(t, (list, tuple)):
+  if is_seq(t):
     r = list(t)
     if k == len(r): r.append(ref_set(_MISSING, rest, v))
     else: r[k] = ref_set(r[k], rest, v)
-    return type(t)(r)
+    return tuple(r) if is_tuple(t) else r
   if isinstance(t, _np.ndarray):
     r = _np.array(t.tolist())
     if rest: r[k] = ref_set(r[k], rest, v)
@@ -126,8 +139,8 @@ def ref_set(t, p, v):
 
 def ref_map(t, f):
   if not is_node(t): return f(t)
-  if isinstance(t, dict): return {k: ref_map(v, f) for k, v in t.items()}
-  if isinstance(t, list): return [ref_map(v, f) for v in t]
+  if is_dict(t): return {k: ref_map(v, f) for k, v in t.items()}
+  if is_list(t): return [ref_map(v, f) for v in t]
   return tuple(ref_map(v, f) for v in t)
 
 def same(a, b):
@@ -136,9 +149,9 @@ def same(a, b):
   if isinstance(a, _np.ndarray) or isinstance(b, _np.ndarray):
     return (isinstance(a, _np.ndarray) and isinstance(b, _np.ndarray) and a.shape == b.shape
             and a.tolist() == b.tolist())
-  if isinstance(a, _CONT) or isinstance(b, _CONT):
-    if type(a) is not type(b) or len(a) != len(b): return False
-    if isinstance(a, dict):
+  if is_cont(a) or is_cont(b):
+    if kind(a) != kind(b) or len(a) != len(b): return False
+    if is_dict(a):
       for k in a:
         if k not in b or not same(a[k], b[k]): return False
       return True
@@ -174,10 +187,10 @@ def targets(t, kinds):
   for p, o in ref_nodes(t):
     if p and 'leaf' in kinds and not is_node(o): out.append(p)
     if p and 'node' in kinds and is_node(o): out.append(p)
-    if isinstance(o, dict):
+    if is_dict(o):
       if 'fresh' in kinds: out.append(p + ('c',))
       if 'deep' in kinds: out += [p + ('c', 'd'), p + ('c', Index(0))]
-    elif isinstance(o, (list, tuple)):
+    elif is_seq(o):
       n = len(o)
       if 'append' in kinds: out.append(p + (Index(n),))
       if 'deep' in kinds: out += [p + (Index(n), 'd'), p + (Index(n), Index(0))]
@@ -281,7 +294,7 @@ def fam_hist(t, v):
   # the same for an in-place set on a view that has been iterated
   for p in targets(t, ('fresh', 'append')):
     t2 = ref_copy(t)
-    if any(isinstance(o, tuple) for q, o in ref_nodes(t2) if _prefix(q, p) and q != p): continue
+    if any(is_tuple(o) for q, o in ref_nodes(t2) if _prefix(q, p) and q != p): continue
     w = mk(t2)
     L(w.keys)
     L(w.set, Key(p), v)
@@ -304,13 +317,13 @@ def fam_items(t, v):
   want = [o for _, o in cands]
   for keys, exp in ((ks, want), (ks[::-1], want[::-1]), (list(ks), want)):
     r = rd(view, keys)
-    if type(r) is not tuple or len(r) != len(keys): return False
+    if not is_tuple(r) or len(r) != len(keys): return False
     for x, y in zip(r, exp):
       if x is not y: return False
   r = L(view.get, (cands[-1][0], cands[0][0]), _DFLT)
-  if type(r) is not tuple or len(r) != 2 or r[0] is not cands[-1][1] or r[1] is not cands[0][1]: return False
+  if not is_tuple(r) or len(r) != 2 or r[0] is not cands[-1][1] or r[1] is not cands[0][1]: return False
   r = rd(view, (cands[0][0],))
-  if type(r) is not tuple or len(r) != 1 or r[0] is not cands[0][1]: return False
+  if not is_tuple(r) or len(r) != 1 or r[0] is not cands[0][1]: return False
   if rd(view, ()) != (): return False
   # a selecting view (key_paths) iterates exactly the selected keys
   leaves = ref_leaves(t)
@@ -335,21 +348,21 @@ def fam_apply(t, v):
   mv = mk(t, map_fn=_tag)
   for p, o in ref_leaves(t):                        # reads through a mapping view map the leaf
     g = rd(mv, Key(p))
-    if type(g) is not tuple or len(g) != 2 or g[1] is not o: return False
+    if not is_tuple(g) or len(g) != 2 or g[1] is not o: return False
   # apply on a selection maps the selected leaves only
   for p, o in ref_leaves(t):
     r = L(lambda: View(t, key_paths=(Key(p),), map_fn=_tag).apply())
     if not same(r, ref_set(snap, p, _tag(o))) or not shared(r, before, p): return False
   if not unchanged(t, snap, before): return False
   # apply with an int function (all leaves ints: no nested empty container); kept to the small shapes
-  if len(ref_leaves(t)) <= 2 and not any(isinstance(o, _CONT) for _, o in ref_leaves(t)):
+  if len(ref_leaves(t)) <= 2 and not any(is_cont(o) for _, o in ref_leaves(t)):
     r = L(lambda: View.as_view(t, map_fn=lambda x: x + v).apply())
     if not same(r, ref_map(snap, lambda x: L(lambda: x + v))): return False
   return unchanged(t, snap, before)
 
 # ---- law: sequences of two copying sets --------------------------------------------------------------------------
 @oracle
-def fam_two(t, a, b, kinds, forms):
+def fam_two(t, a, b, kinds, allpairs):
   snap = ref_copy(t); before = ref_nodes(t)
   tg = targets(t, kinds)
   leafs = targets(t, ('leaf',))
@@ -361,22 +374,25 @@ def fam_two(t, a, b, kinds, forms):
     if not same(v1.data, e1): return False
     for p2 in tg:
       if p1 != p2 and _related(p1, p2): continue    # second path would descend into the int that was just set
+      if not allpairs and p1 != p2 and p1 not in leafs and p2 not in leafs: continue   # (thorough tier: all pairs)
       v2 = cs(v1, Key(p2), b)
       if not unchanged(t, snap, before) or not unchanged(v1.data, s1, n1): return False
       if not same(v2.data, ref_set(e1, p2, b)): return False
       if not shared(v2.data, before, p1, p2) or not shared(v2.data, n1, p2): return False
-      if not forms or not (p1 in leafs and p2 in leafs): continue   # multi-key forms: pairs of existing leaves
+      if not (p1 in leafs and p2 in leafs): continue   # reads and multi-key forms: pairs of existing leaves
       if rd(v2, Key(p2)) is not b: return False
       if p1 != p2 and rd(v2, Key(p1)) is not a: return False
-      # the multi-key forms are the same sequence
-      v3 = cs(v0, (Key(p1), Key(p2)), (a, b))
-      if not same(v3.data, v2.data): return False
-      if p1 != p2:
+      # one multi-key form per ordered pair: they are the same sequence of sets
+      i1, i2 = leafs.index(p1), leafs.index(p2)
+      if i1 < i2 or (allpairs and i1 != i2):
+        v3 = cs(v0, (Key(p1), Key(p2)), (a, b))
+        if not same(v3.data, v2.data): return False
+      if i1 > i2 or (allpairs and i1 != i2):
         v5 = L(v0.copy_and_update, {Key(p1): a, Key(p2): b})
         if not same(v5.data, v2.data): return False
         r = rd(v5, (Key(p1), Key(p2)))
-        if type(r) is not tuple or len(r) != 2 or r[0] is not a or r[1] is not b: return False
-      else:
+        if not is_tuple(r) or len(r) != 2 or r[0] is not a or r[1] is not b: return False
+      if i1 == i2:
         v4 = L(lambda: v0 | [(Key(p1), a), (Key(p2), b)])     # the later pair wins
         if not same(v4.data, v2.data): return False
   return unchanged(t, snap, before)
@@ -388,7 +404,7 @@ def fam_inplace(t, v, kinds):
   for p in targets(t, kinds):
     t2 = ref_copy(t); snap = ref_copy(t)
     before = ref_nodes(t2)
-    tuple_on_path = any(isinstance(o, tuple) for q, o in before if _prefix(q, p) and q != p)
+    tuple_on_path = any(is_tuple(o) for q, o in before if _prefix(q, p) and q != p)
     # (the library formats the value into its error message: keep it concrete where the set may be refused)
     val = 12345 if tuple_on_path else v
     want = ref_set(snap, p, val)
@@ -508,7 +524,7 @@ def fam_mask(b0, b1, b2, v):
   a1 = _np.array([1, 2, 3]); a2 = _np.array([4, 5, 6])
   items = {'a': a1, 'b': {'c': a2}}
   r = am(items, masks=m)
-  if type(r) is not dict or list(r) != ['a', 'b'] or type(r['b']) is not dict or list(r['b']) != ['c']: return False
+  if not is_dict(r) or list(r) != ['a', 'b'] or not is_dict(r['b']) or list(r['b']) != ['c']: return False
   if r['a'].tolist() != [[1, 2, 3][i] for i in keep] or r['b']['c'].tolist() != [[4, 5, 6][i] for i in keep]: return False
   return items['a'] is a1 and items['b']['c'] is a2 and a1.tolist() == [1, 2, 3] and a2.tolist() == [4, 5, 6]
 '''
@@ -532,20 +548,20 @@ def templates(tier):
 
 
 # family -> (extra symbolic ints, call, heavy). Heavy families use the smaller child-choice range in the quick tier.
-FAMILIES = {
-    'set_leaf': (['v'], 'fam_set_leaf(t, v)', False),
-    'set_struct': (['v'], 'fam_set_struct(t, v)', True),
-    'fresh': (['v'], 'fam_fresh(t, v)', False),
+FAMILIES = {   # heaviest first (they are started first)
+    'two': (['a', 'b'], "fam_two(t, a, b, ('leaf', 'fresh', 'append'), %(allpairs)d)", True),
     'hist': (['v'], 'fam_hist(t, v)', True),
+    'special': (['a', 'b'], 'fam_special(t, a, b)', True),
     'items': (['v'], 'fam_items(t, v)', False),
     'apply': (['v'], 'fam_apply(t, v)', False),
-    'two': (['a', 'b'], "fam_two(t, a, b, ('leaf', 'fresh', 'append'), 1)", True),
+    'fresh': (['v'], 'fam_fresh(t, v)', False),
+    'set_struct': (['v'], 'fam_set_struct(t, v)', True),
     'inplace': (['v'], "fam_inplace(t, v, ('leaf', 'node', 'fresh', 'append'))", False),
-    'special': (['a', 'b'], 'fam_special(t, a, b)', True),
+    'set_leaf': (['v'], 'fam_set_leaf(t, v)', False),
 }
 
 
-def gen(tier, cmax, cmax_heavy):
+def gen(tier, cmax, cmax_heavy, allpairs):
   F = xh.fn
   s = [PRELUDE]
   A = s.append
@@ -554,7 +570,7 @@ def gen(tier, cmax, cmax_heavy):
       cm = cmax_heavy if heavy else cmax
       A(F(f'ob_{fam}_{tag}', _args(nc, nl, extra), f'{pre} and 0 <= c1 <= {cm} and 0 <= c2 <= {cm}', f"""
       t = {expr}
-      return {call}"""))
+      return {call % dict(allpairs=allpairs)}"""))
   A(F('ob_empty_roots', 'v: int', 'True', 'return fam_empty_roots(v)'))
   A(F('ob_np_interior', 'v: int', '0 <= v <= 2', 'return fam_np(v)'))
   A(F('ob_apply_mask', 'b0: bool, b1: bool, b2: bool, v: int', '0 <= v <= 1', 'return fam_mask(b0, b1, b2, v)'))
@@ -595,10 +611,10 @@ def run(tier):
               V.copy_and_set, V.copy_and_update, V.__or__, V.apply, V.as_view, tree._default_tree, tree._dfs_iter_tree,
               tree.normalize_keys, tree.apply_mask)
   if tier == 'quick':
-    p = dict(cmax=9, cmax_heavy=6)
-    timeout = 150
+    p = dict(cmax=9, cmax_heavy=6, allpairs=0)
+    timeout = 180
   else:
-    p = dict(cmax=9, cmax_heavy=9)
+    p = dict(cmax=9, cmax_heavy=9, allpairs=1)
     timeout = 1200
   rep.bounds(tier=tier, depth=2 if tier == 'quick' else 3, per_condition_timeout_s=timeout, **p)
   only = os.environ.get('VF_ONLY')
